@@ -88,7 +88,7 @@ def fam_chain(w: World) -> None:
     """One to three documents, one after another, through one long-lived dispatcher with middlewares and handlers."""
     ch = w.ch
     n_deliveries = 1 + ch.draw(3, 'deliveries')
-    infos = [S.gen_document(ch, max_len=4, allow_junk=True, tok_prefix=f'd{d}_' if d else '') for d in range(n_deliveries)]
+    infos = [S.gen_document(ch, exotic=True, max_len=4, allow_junk=True, tok_prefix=f'd{d}_' if d else '') for d in range(n_deliveries)]
     n = max((len(i['doc']) if isinstance(i['doc'], list) else 1) for i in infos)
     cfg = S.draw_config(ch, n, middlewares=True, handlers=True)
     for d in range(n_deliveries):
